@@ -1405,7 +1405,9 @@ fn emit_calls(seed: u64, tier: Tier, unit: u64, sink: &mut dyn FnMut(Plan) -> bo
             // day-count arithmetic: all 256 values of the 8-bit parameter
             let date_day = r.i64_in(0, ymd_day(2200, 12, 31));
             let cal = gen_cal_choice(r, date_day);
-            let date = date_day * 86_400;
+            // mostly midnight; sometimes a time of day (a datetime on a holiday's DAY is not
+            // the holiday itself)
+            let date = date_day * 86_400 + if r.chance(0.15) { r.i64_in(1, 86_399) } else { 0 };
             let func = match which {
                 0 => DateFn::AddDays,
                 1 => DateFn::AddBusDays,
@@ -1540,6 +1542,13 @@ fn emit_calls(seed: u64, tier: Tier, unit: u64, sink: &mut dyn FnMut(Plan) -> bo
                 "é",
                 "東京証券取引所の休日カレンダーの名前です",
                 "a€bb€€ccc€€€dddd€€€€eeeee€€€€€ffffff",
+                // code points whose lower-case form has another byte length
+                "İ",
+                "st\u{212A}",
+                "\u{212A}",
+                "Ⱥ",
+                "ẞ",
+                "tgt,İ",
                 "zzzzzzzzzzzzzzzzzzzzzzzzzzzzzzzzzzzzzzzzzzzzzzzzzzzzzzzzzzzzzzzzzzzzzzzz",
                 "\u{1F600}\u{1F600}\u{1F600}\u{1F600}\u{1F600}\u{1F600}\u{1F600}\u{1F600}x\u{1F600}\u{1F600}",
             ];
@@ -1561,6 +1570,9 @@ fn emit_calls(seed: u64, tier: Tier, unit: u64, sink: &mut dyn FnMut(Plan) -> bo
                     s.push_str(&v.join(","));
                 }
                 sink(Plan::Call(CallSpec::NamedCal(s)));
+            }
+            for odd in ["İ|tgt", "\u{212A}|", "st\u{212A}|tgt", "tgt|st\u{212A}", "İİ|İ", "Ⱥ|Ⱥ", "ẞ,tgt|ldn"] {
+                sink(Plan::Call(CallSpec::NamedCal(odd.to_string())));
             }
             for n in CAL_NAMES {
                 sink(Plan::Call(CallSpec::NamedCal(n.to_string())));
